@@ -32,7 +32,7 @@ ASSUMPTIONS = [
     'invalid fragment (removed by --no_rejects) = R1 absent/unmapped, pre-set qc-fail, or (nla) R1 without CATG: generator label, cross-checked against the default run',
 ]
 COMPONENTS = {'real': tc.TAGGER_REAL, 'stub': tc.TAGGER_STUB}
-REQUIRED_PROBES = ['index_stale', 'index_missing', 'contig_with_only_placed_unmapped_reads', 'multiprocess_lifetime', 'delivery_order_not_submission_order', 'small_group_and_large_contig', 'unplaced_reads', 'no_rejects_run', 'invalid_fragment_present', 'orphan_or_halfmapped', 'empty_contig']
+REQUIRED_PROBES = ['many_small_contigs_layout', 'index_stale', 'index_missing', 'contig_with_only_placed_unmapped_reads', 'multiprocess_lifetime', 'delivery_order_not_submission_order', 'small_group_and_large_contig', 'unplaced_reads', 'no_rejects_run', 'invalid_fragment_present', 'orphan_or_halfmapped', 'empty_contig']
 
 
 def plan(tier):
@@ -51,6 +51,8 @@ def generate(seed, tier):
     method = weighted(w, [('nla', 5), ('chic', 4), ('qflag', 1)])
     genome = tw.genome(w)
     frags = tw.library(w, genome, method)
+    if w.random() < 0.03:
+        genome, frags = tw.many_small_contigs(w, method)
     if method == 'qflag' and w.random() < 0.5:
         for f in frags:
             if f['defect'] in (None, 'r2unmapped', 'orphan_r1', 'qcfail'):
@@ -138,6 +140,8 @@ def execute(case):
             probe('orphan_or_halfmapped')
         if len(seq) < len(case['genome']):
             probe('empty_contig')
+        if len(case['genome']) > 50:
+            probe('many_small_contigs_layout')
         if p.get('index_state'):
             probe('index_' + p['index_state'][0])
         if any(f.get('defect') == 'placed_unmapped' for f in case['workload']):
